@@ -67,7 +67,11 @@ def mk(cfg, world):
             "iter": lambda: iter(list(src)),
             "dictkeys": lambda: dict.fromkeys(src).keys(),
         }[shape]()
+    if cfg.get("clock_object"):
+        # the caller's own clock: a callable object that counts its readings and can be sized - empty, hence falsy, when the breaker is built
+        kw["clock"] = SizedClock(world)
     real = CircuitBreaker(**kw)  # default clock argument = interposed time.monotonic
+    real.rv_clock = kw.get("clock")
     mine = kw.get("trip_on")
     if isinstance(mine, set) and cfg.get("reuse_trip_set", True):
         # the caller goes on using ITS set object: builds another breaker from it (one with class thresholds of its own), then edits it
@@ -76,6 +80,22 @@ def mk(cfg, world):
         mine.discard(EC.TRANSIENT)
     model = BreakerModel(threshold=cfg["threshold"], window=cfg["window"], recovery=cfg["recovery"], trip_on={k.name for k in eff}, class_thresholds={k.name: v for k, v in cts.items()})
     return real, model
+
+
+class SizedClock:
+    """The caller's own time source: another epoch than the process clock, and the process clock runs at half its speed - a breaker that
+    measured its window on anything but this clock would age failures wrongly."""
+
+    def __init__(self, world):
+        self.t = 5000.0
+        self.readings = 0
+
+    def __call__(self):
+        self.readings += 1
+        return self.t
+
+    def __len__(self):
+        return 0  # (what it is sized over does not matter: it is falsy)
 
 
 def rng_empty(cfg):
@@ -94,10 +114,15 @@ EVENT_FOR = {(True, "half_open", "open"): "circuit_half_open"}
 
 def step(real, model, world, op, hist, ctx, viol):
     """Apply one operation to both; compare.  Returns False when a violation was reported."""
-    now = world.t
+    clk = getattr(real, "rv_clock", None)
+    now = world.t if clk is None else clk.t
     kind = op[0]
     if kind == "adv":
-        world.t += op[1]
+        if clk is None:
+            world.t += op[1]
+        else:
+            clk.t += op[1]
+            world.t += op[1] / 2.0
         return True
     before = model.mode
     if kind == "allow":
@@ -253,6 +278,9 @@ def work(ctx, tier):
             if rng.random() < 0.35:
                 cfg["class_thresholds_multi"] = {k_: rng.randint(1, 3) for k_ in rng.sample(["TRANSIENT", "SERVER_ERROR", "RATE_LIMIT", "UNKNOWN"], rng.randint(2, 3))}
                 ctx.cnt["configs_with_several_class_thresholds"] += 1
+            if rng.random() < 0.25:
+                cfg["clock_object"] = True
+                ctx.cnt["breakers_with_a_caller_supplied_clock_object"] += 1
             if "trip_mode" not in cfg and rng.random() < 0.5:
                 cfg["trip_container"] = rng.choice(["frozenset", "list", "tuple", "generator", "filter", "iter", "dictkeys"])
                 ctx.cnt["trip_on_given_as:" + cfg["trip_container"]] += 1
